@@ -79,6 +79,7 @@ impl CanonicalRequest {
 //@ fn canonical.rs impl CanonicalRequest :: canonical_query_string
 //@ params
 //@ props C08 C10 C01 C17
+//@ consumers C02
 //@ ret r
 //@ spec
     ensures is_canon_query(self.qview(), str_bytes(r@)), //# C10 C01 name=canonical_query
@@ -88,6 +89,7 @@ impl CanonicalRequest {
 //@ params signed_headers
 //@ hideutf8
 //@ props C08 C01 C11 C17
+//@ consumers C02 C05
 //@ ret r
 //@ replace 1 `values.iter().enumerate()` => `slice_enumerate(values)`
 //@ replace 1 `signed_headers.join(";")` => `strings_join_str(signed_headers, ";")`
@@ -186,6 +188,7 @@ impl CanonicalRequest {
 //@ fn canonical.rs impl CanonicalRequest :: canonical_request_sha256
 //@ params signed_headers
 //@ props C08 C01 C17
+//@ consumers C02
 //@ ret r
 //@ spec
     requires self.wf()
